@@ -17,7 +17,7 @@ CLAUSE = ('PathRouter::new / DomainRouter::new return Ok only after `?` on every
           'Some(parent ++ own) whenever the parent has one and its domain is own-else-parent; ScopeBasedFallbackTree::new hangs the children '
           'of a scope under the fallback node created for that scope; every numbering of domains / paths in the code generator is a plain '
           'enumerate over the same sorted map, with no reordering, in both the init function and the dispatch arms; the default fallback '
-          'produces 405 only together with an Allow header.')
+          'produces 405 only together with an Allow header. In ScopeGraph::find_common_ancestor a scope is left only once the candidate covers it.')
 TRUSTED = ['matchit routes a path to the value inserted for the unique matching pattern', 'BTreeMap iteration order is the key order in every function']
 
 A = PX + 'analyses::'
